@@ -319,9 +319,13 @@ def install(env):
             el = x.elem
             if not isinstance(el, TupleOf) or len(el.elems) != 2:
                 raise Unsupported("dict() of a symbolic list whose elements are not pairs")
-            n = it.ctx.counters.get("recdict", 0)
-            it.ctx.counters["recdict"] = n + 1
-            return SymRecDict(f"D{n}", el.elems[1])
+            # the record is named after the list term: dict() of the same list is the same map
+            nm = "D_" + "".join(ch if ch.isalnum() else "_" for ch in str(x.term))[:40] if z3.is_const(x.term) else None
+            if nm is None:
+                n = it.ctx.counters.get("recdict", 0)
+                it.ctx.counters["recdict"] = n + 1
+                nm = f"D{n}"
+            return SymRecDict(nm, el.elems[1])
         if isinstance(x, SymRecDict):
             return SymRecDict(x.name + "c", x.valsort, x.entries, x.closed)
         if isinstance(x, dict):
